@@ -171,3 +171,19 @@ def write_replay(pid, name, payload):
     with open(path, "w") as fh:
         json.dump(payload, fh, indent=1)
     return path
+
+
+def source_fingerprint():
+    """what the harness was built from: /repo's HEAD, whether the working tree differs from it,
+    and a hash over the crate's source files (the checks rebuild from the working tree)"""
+    import hashlib
+    head = sh(["git", "-C", "/repo", "log", "--format=%h %s", "-1"])[1].strip()
+    dirty = sh(["git", "-C", "/repo", "status", "--porcelain", "--", "src", "Cargo.toml"])[1].strip()
+    h = hashlib.sha256()
+    n = 0
+    for root, _, files in sorted(os.walk("/repo/src")):
+        for f in sorted(files):
+            if f.endswith(".rs"):
+                h.update(open(os.path.join(root, f), "rb").read())
+                n += 1
+    return {"repo_head": head, "working_tree_differs_from_head": bool(dirty), "src_files": n, "src_sha256": h.hexdigest()[:16]}
